@@ -139,10 +139,48 @@ fn step_deliver(lib: &Lib, model: &mut Model, w: &World, m: &Msg, p2p: bool, at:
 	Ok(lib_ok)
 }
 
-fn compare_views(lib: &Lib, model: &Model, at: &str, what: &str) -> CaseResult {
+fn compare_views(lib: &Lib, model: &Model, at: &str, what: &str) -> Result<View, Failure> {
 	let (lv, mv) = (lib_view(&lib.g), model.view());
 	if lv != mv {
 		return Err(Failure::new("state", format!("{}: after {} the library graph differs from the reference: {}", at, what, view_diff(&lv, &mv))).with_key("state"));
+	}
+	Ok(lv)
+}
+
+/// Reference-free form of "never replaces information with an older or equal timestamp": across the
+/// delivery of one channel_update / node_announcement every direction and node record that existed
+/// before still exists and is either untouched or carries a strictly larger timestamp.
+fn check_currency(before: &View, after: &View, at: &str) -> CaseResult {
+	for (scid, b) in before.chans.iter() {
+		let Some(a) = after.chans.get(scid) else {
+			return Err(Failure::new("currency", format!("{}: channel {} vanished on a message delivery", at, scid)).with_key("currency/channel-vanished"));
+		};
+		for d in 0..2 {
+			if let Some(bd) = &b.dirs[d] {
+				let ok = match &a.dirs[d] {
+					Some(ad) => ad == bd || ad.last_update > bd.last_update,
+					None => false,
+				};
+				if !ok {
+					return Err(Failure::new("currency", format!("{}: channel {} direction {} went from timestamp {} to {:?} with changed content", at, scid, d, bd.last_update, a.dirs[d].as_ref().map(|x| x.last_update)))
+						.with_key("currency/direction"));
+				}
+			}
+		}
+	}
+	for (id, b) in before.nodes.iter() {
+		let Some(a) = after.nodes.get(id) else {
+			return Err(Failure::new("currency", format!("{}: node {} vanished on a message delivery", at, hex(&id[..6]))).with_key("currency/node-vanished"));
+		};
+		if let Some(bi) = &b.info {
+			let ok = match &a.info {
+				Some(ai) => ai == bi || ai.last_update > bi.last_update,
+				None => false,
+			};
+			if !ok {
+				return Err(Failure::new("currency", format!("{}: node {} info went from timestamp {} to {:?} with changed content", at, hex(&id[..6]), bi.last_update, a.info.as_ref().map(|x| x.last_update))).with_key("currency/node"));
+			}
+		}
 	}
 	Ok(())
 }
@@ -209,12 +247,13 @@ fn model_oracle(c: &MCase, ctx: &mut Ctx) -> CaseResult {
 	let nch = c.uni.chans.len();
 	let mut steps = 0u64;
 	let mut applied_updates = 0u32;
+	let mut prev = View::default();
 
 	for i in 0..pick(c.warm, nch + 1) {
 		let m = w.msg(&msgs, i, None);
 		let at = format!("warm-up #{}", i);
 		step_deliver(&lib, &mut model, &w, &m, false, &at, &mut seen)?;
-		compare_views(&lib, &model, &at, "the delivery")?;
+		prev = compare_views(&lib, &model, &at, "the delivery")?;
 		steps += 1;
 	}
 	for (i, op) in c.ops.iter().enumerate() {
@@ -274,7 +313,13 @@ fn model_oracle(c: &MCase, ctx: &mut Ctx) -> CaseResult {
 				rgs::apply(snap, &c.uni, &w, &lib, &mut model, &at, &mut seen)?;
 			},
 		}
-		compare_views(&lib, &model, &at, "the operation")?;
+		let now_view = compare_views(&lib, &model, &at, "the operation")?;
+		if let Op::Deliver { msg, .. } = op {
+			if !matches!(msgs[pick(*msg, msgs.len())], MsgSpec::Ann { .. } | MsgSpec::AnnVariant { .. }) {
+				check_currency(&prev, &now_view, &at)?;
+			}
+		}
+		prev = now_view;
 		steps += 1;
 	}
 	lib.roundtrip()?;
@@ -625,9 +670,9 @@ fn main() {
 		PartSpec {
 			name: "model",
 			rule: "universe of 3-15 nodes, 2-14 channels with generated UTXO answers, 4-70 further messages (valid, wrong signer, altered after signing, wrong chain, unknown scid, htlc_max above capacity, equal/older timestamps, second announcement with other endpoints); script of 10-200 operations (deliveries via NetworkGraph / P2PGossipSync, permanent channel/node failures direct and via NetworkUpdate, pruning at generated times, write->read, RGS snapshots in the thorough tier); library compared with the reference interpreter after every operation. Non-trivial: at least one forged message, one not-newer message and one accepted channel_update in the case",
-			quick_cases: 2600,
-			thorough_cases: 90_000,
-			max_shrink: 3000,
+			quick_cases: 14_000,
+			thorough_cases: 600_000,
+			max_shrink: 1500,
 		},
 		mcase_strat(thorough),
 		model_oracle,
@@ -636,9 +681,9 @@ fn main() {
 		PartSpec {
 			name: "confluence",
 			rule: "universe as above without conflicting announcements, all timestamps pairwise distinct; 2-4 delivery orders with duplication, each announcement before its dependants; final graphs must be equal to each other, equal to the reference and survive write->read. Non-trivial: orders 0 and 1 swap two messages of the same channel and a forgery and an older message were turned down",
-			quick_cases: 1300,
-			thorough_cases: 45_000,
-			max_shrink: 3000,
+			quick_cases: 8_000,
+			thorough_cases: 300_000,
+			max_shrink: 1500,
 		},
 		ccase_strat(),
 		confluence_oracle,
@@ -647,8 +692,8 @@ fn main() {
 		PartSpec {
 			name: "tamper",
 			rule: "one acceptable channel_announcement / channel_update / node_announcement; 24-48 single-bit flips over signature(s) and signed part, each delivered alone: must be rejected and leave the view unchanged; then the original is accepted. Non-trivial: flips hit both the signature and the signed part",
-			quick_cases: 2500,
-			thorough_cases: 80_000,
+			quick_cases: 16_000,
+			thorough_cases: 500_000,
 			max_shrink: 2000,
 		},
 		tcase_strat(),
